@@ -75,6 +75,7 @@ void vrt_watch_plain(int on);
 
 /* signals (C19) */
 void vrt_set_sighandler(void (*fn)(void));	/* invoked on the victim's stack at a scheduling point */
+void vrt_sig_allow(int on);			/* the calling thread may (not) be interrupted from now on (default: not) */
 
 /* libc redirection targets (vrt_redirect.h maps the libc names onto these for library sources) */
 int vrt_mutex_lock(pthread_mutex_t *m);
